@@ -1170,12 +1170,12 @@ Section Strict.
     - apply Eq_bool.
     - apply Eq_list; auto. intros i x y Hx Hy. eapply IH; eauto. eapply dfree_nth; eauto.
     - discriminate.
-    - rewrite (dfree_set_keys _ Hf) in Hsk. rewrite (dfree_map_fields _ Hf) in Hmf.
+    - rewrite (dfree_set_keys key_text _ Hf) in Hsk. rewrite (dfree_map_fields key_text _ Hf) in Hmf.
       injection Hsk as <-. injection Hmf as <-.
-      apply Eq_map with (sk := []) (mf := []); auto using dfree_set_keys, dfree_map_fields.
+      apply Eq_map with (sk := []) (mf := []); auto using (dfree_set_keys key_text), (dfree_map_fields key_text).
       + intros k v w fields _ _ _ Hl. discriminate.
       + intros k v w fields tobj aobj _ _ _ Hl. discriminate.
-      + intros k v w Hd Hv Hw _. eapply IHo; eauto. eapply dfree_lookup; eauto.
+      + intros k v w Hd Hv Hw _. eapply IHo; eauto. eapply (dfree_lookup key_text); eauto.
   Qed.
 
   (* tmatch_iff, for an expectation without directives: pass iff the actual
